@@ -11,6 +11,7 @@ import (
 	"kcsim/world"
 
 	"github.com/boz/kcache"
+	"github.com/boz/kcache/filter"
 	corev1 "k8s.io/api/core/v1"
 	metav1 "k8s.io/apimachinery/pkg/apis/meta/v1"
 )
@@ -22,6 +23,9 @@ type CacheOp struct {
 	Obj    world.Spec       `json:"obj,omitempty"`
 	List   []world.Spec     `json:"list,omitempty"`
 	Filter world.FilterSpec `json:"filter,omitempty"`
+	// Flip (sync, stateful runs): right before this sync the application's filter
+	// object changes what it accepts - no Refilter, the sync is what reconciles
+	Flip *world.FilterSpec `json:"flip,omitempty"`
 }
 
 // CacheScen drives the cache actor directly (through the verif-tagged export
@@ -37,6 +41,9 @@ type CacheScen struct {
 	Tree *Tree `json:"tree,omitempty"`
 	// ValueObjs: objects are uncomparable values of an application type (see mkObj)
 	ValueObjs bool `json:"value_objs,omitempty"`
+	// Stateful: the cache's filter is one application object whose verdicts the
+	// application changes in place (CacheOp.Flip), re-submitted by pointer on Refilter
+	Stateful bool `json:"stateful,omitempty"`
 }
 
 var cacheKeys = [][2]string{{"n1", "a"}, {"", "a"}, {"n1", "b"}, {"n2", "a"}, {"n-1", "a"}, {"n", "1-a"}} // "" = a cluster-scoped object (nodes have no namespace); the last two collide under a "-" join
@@ -168,6 +175,24 @@ func genCacheBulk(rng *rand.Rand, sc *CacheScen) {
 }
 
 func genCache(g GenCtx) interface{} {
+	sc := genCache0(g).(*CacheScen)
+	if g.Idx%7 == 5 && sc.Filter.Op != "flaky" {
+		sc.Stateful = true
+		frng := rand.New(rand.NewSource(g.Seed*7919 + int64(g.Idx)))
+		for i := range sc.Ops {
+			if sc.Ops[i].Op == "sync" && frng.Intn(2) == 0 {
+				f := randFilter(frng)
+				if f.Op == "flaky" {
+					continue
+				}
+				sc.Ops[i].Flip = &f
+			}
+		}
+	}
+	return sc
+}
+
+func genCache0(g GenCtx) interface{} {
 	sc := &CacheScen{Prop: g.Prop, ValueObjs: g.Idx%9 == 4}
 	alpha := sweepAlphabet()
 	if g.Idx%2 == 1 {
@@ -421,7 +446,14 @@ func runCache(sci interface{}) {
 	defer cancel()
 	stopch := make(chan struct{})
 	log := world.NewLog(false)
-	c := kcache.VerifNewCache(ctx, log, stopch, sc.Filter.Build())
+	var sf *world.StatefulFilter
+	var c0 filter.Filter = sc.Filter.Build()
+	if sc.Stateful {
+		sf = world.NewStateful(c0)
+		c0 = sf
+		detsim.Count("probe:stateful-cache-filter")
+	}
+	c := kcache.VerifNewCache(ctx, log, stopch, c0)
 	ref := world.NewRefCache(sc.Filter.Pred())
 
 	// concurrent readers: every List() must equal the content before or after
@@ -482,6 +514,11 @@ func runCache(sci interface{}) {
 		switch op.Op {
 		case "sync":
 			desc = fmt.Sprintf("sync(%v)", world.SpecIDs(op.List))
+			if sf != nil && op.Flip != nil {
+				desc = fmt.Sprintf("filter becomes %s; ", op.Flip.String()) + desc
+				sf.Set(op.Flip.Build())
+				ref.Pred = op.Flip.Pred()
+			}
 			evs, err = c.Sync(objsOf(op.List))
 			lat = latitudeKeys(op.List, ref.Pred)
 			prevItems = ref.Clone().Items
@@ -489,7 +526,12 @@ func runCache(sci interface{}) {
 			minimal = !hasDupKeys(op.List)
 		case "refilter":
 			desc = fmt.Sprintf("refilter(%v, %s)", world.SpecIDs(op.List), op.Filter.String())
-			evs, err = c.Refilter(objsOf(op.List), op.Filter.Build())
+			if sf != nil {
+				sf.Set(op.Filter.Build())
+				evs, err = c.Refilter(objsOf(op.List), sf)
+			} else {
+				evs, err = c.Refilter(objsOf(op.List), op.Filter.Build())
+			}
 			lat = latitudeKeys(op.List, op.Filter.Pred())
 			prevItems = ref.Clone().Items
 			want = ref.Refilter(op.List, op.Filter.Pred())
